@@ -2,6 +2,7 @@ package rules
 
 import (
 	"go/token"
+	"go/types"
 	"sort"
 	"strings"
 
@@ -91,6 +92,8 @@ type lsEnd struct {
 }
 
 type lockstep struct {
+	depth int
+	terms map[string]ssa.Value // len(...) term -> the slice value it measures
 	fn    *ssa.Function
 	kind  func(*ssa.Call) int // +1 first slice, -1 second, 0 neither
 	loops []*lsLoop
@@ -132,6 +135,69 @@ func lsValDesc(v ssa.Value, depth int) string {
 }
 
 func lsLenTerm(v ssa.Value) string { return "len(" + v.Name() + "=" + lsValDesc(v, 0) + ")" }
+
+func (l *lockstep) lenTerm(v ssa.Value) string {
+	t := lsLenTerm(v)
+	if l.terms == nil {
+		l.terms = map[string]ssa.Value{}
+	}
+	l.terms[t] = v
+	return t
+}
+
+// callSummary: what a helper that receives one of the two slices and returns it extended adds to it, expressed in
+// the caller's values: the helper's own appends are counted the same way, and a term len(parameter) becomes
+// len(argument). Anything else is unknown.
+func (l *lockstep) callSummary(c *ssa.Call, k int) lsDiff {
+	f := c.Call.StaticCallee()
+	unknown := lsDiff{"?call " + f.Name(): k}
+	if l.depth >= 2 {
+		return unknown
+	}
+	sub := &lockstep{fn: f, p: l.p, kind: l.kind, depth: l.depth + 1}
+	sub.findLoops()
+	ends := sub.walk(f.Blocks[0], nil, true, map[*ssa.BasicBlock][]lsEnd{}, map[*ssa.BasicBlock]bool{})
+	if len(sub.probs) > 0 {
+		return unknown
+	}
+	var d lsDiff
+	for _, e := range ends {
+		if e.kind != "return" {
+			continue
+		}
+		if d == nil {
+			d = e.d
+		} else if d.key() != e.d.key() {
+			return unknown
+		}
+	}
+	out := lsDiff{}
+	for t, n := range d {
+		if t == "1" || (len(t) > 0 && t[0] >= '0' && t[0] <= '9') {
+			out[t] += n
+			continue
+		}
+		v, ok := sub.terms[t]
+		if !ok {
+			return unknown
+		}
+		par, ok := v.(*ssa.Parameter)
+		if !ok {
+			return unknown
+		}
+		idx := -1
+		for i, q := range f.Params {
+			if q == par {
+				idx = i
+			}
+		}
+		if idx < 0 || idx >= len(c.Call.Args) {
+			return unknown
+		}
+		out[l.lenTerm(c.Call.Args[idx])] += n
+	}
+	return out
+}
 
 func (l *lockstep) findLoops() {
 	byHead := map[*ssa.BasicBlock]*lsLoop{}
@@ -175,7 +241,25 @@ func (l *lockstep) blockDiff(b *ssa.BasicBlock) lsDiff {
 	d := lsDiff{}
 	for _, in := range b.Instrs {
 		c, ok := in.(*ssa.Call)
-		if !ok || !core.IsBuiltinCall(&c.Call, "append") || len(c.Call.Args) != 2 {
+		if !ok {
+			continue
+		}
+		if f := c.Call.StaticCallee(); f != nil && f.Blocks != nil && f != l.fn {
+			// a helper that takes the slice and returns it extended
+			if k := l.kind(c); k != 0 {
+				takes := false
+				for _, a := range c.Call.Args {
+					if types.Identical(a.Type(), c.Type()) {
+						takes = true
+					}
+				}
+				if takes {
+					d = d.add(l.callSummary(c, k))
+				}
+			}
+			continue
+		}
+		if !core.IsBuiltinCall(&c.Call, "append") || len(c.Call.Args) != 2 {
 			continue
 		}
 		k := l.kind(c)
@@ -196,7 +280,7 @@ func (l *lockstep) blockDiff(b *ssa.BasicBlock) lsDiff {
 			}
 		}
 		if term == "" {
-			term = lsLenTerm(arg)
+			term = l.lenTerm(arg)
 		}
 		d[term] += k
 		if d[term] == 0 {
@@ -350,7 +434,7 @@ func (l *lockstep) loopContribution(lp *lsLoop) (lsDiff, []*ssa.BasicBlock) {
 	// every iteration adds the same amount: scale by the trip count when it is exact
 	if v, ok := l.tripCount(lp); ok && len(per) == 1 {
 		if k, ok := per["1"]; ok {
-			return lsDiff{lsLenTerm(v): k}, exits
+			return lsDiff{l.lenTerm(v): k}, exits
 		}
 	}
 	l.probs = append(l.probs, sprintf("every iteration of the loop at %s is unbalanced: %s", l.loopPos(lp), per))
@@ -373,7 +457,7 @@ func (l *lockstep) run() {
 	l.findLoops()
 	for _, b := range l.fn.Blocks {
 		for _, in := range b.Instrs {
-			if c, ok := in.(*ssa.Call); ok && core.IsBuiltinCall(&c.Call, "append") {
+			if c, ok := in.(*ssa.Call); ok && (core.IsBuiltinCall(&c.Call, "append") || c.Call.StaticCallee() != nil) {
 				switch l.kind(c) {
 				case 1:
 					l.nApp[0]++
@@ -487,4 +571,65 @@ func c05Lockstep(c *Ctx, p *core.Prog) {
 		runLockstep(r, p, "lockstep-append", fn, sp.first, sp.second, sp.why, key)
 	}
 	r.Floor("lockstep-append", n, 1, "parallel-slice builders analysed")
+}
+
+// location-copied: the parser never sees the source text, only tokens with the spans the tokenizer computed. A
+// Location it reports is therefore a copy of one of those (or the zero "unknown" constant); one whose Line or Column
+// it computes by arithmetic cannot account for line breaks, tabs and multi-byte characters between or inside tokens.
+func c05LocationCopied(c *Ctx, p *core.Prog) {
+	r := c.R
+	r.Rule("location-copied", "in pkg/sql/parser every store into the Line or Column of a models.Location is a constant or a copy of the same field of another Location (no arithmetic on positions outside the tokenizer)")
+	n, bad := 0, 0
+	var copyOf func(v ssa.Value, d int) bool
+	copyOf = func(v ssa.Value, d int) bool {
+		if d > 6 {
+			return false
+		}
+		switch x := v.(type) {
+		case *ssa.Const:
+			return true
+		case *ssa.UnOp:
+			if x.Op != token.MUL {
+				return false
+			}
+			if fa, ok := x.X.(*ssa.FieldAddr); ok {
+				return isLocationType(core.Deref(fa.X.Type()))
+			}
+		case *ssa.Field:
+			return isLocationType(x.X.Type())
+		case *ssa.Phi:
+			for _, e := range x.Edges {
+				if !copyOf(e, d+1) {
+					return false
+				}
+			}
+			return true
+		}
+		return false
+	}
+	for _, fn := range p.SrcFuncs("pkg/sql/parser") {
+		seq := 0
+		for _, b := range fn.Blocks {
+			for _, in := range b.Instrs {
+				st, ok := in.(*ssa.Store)
+				if !ok {
+					continue
+				}
+				fa, ok := st.Addr.(*ssa.FieldAddr)
+				if !ok || !isLocationType(core.Deref(fa.X.Type())) {
+					continue
+				}
+				n++
+				if copyOf(st.Val, 0) {
+					continue
+				}
+				bad++
+				seq++
+				r.Violate("location-copied", core.FnName(fn)+sprintf("|%s#%d", core.FieldName(fa.X.Type(), fa.Field), seq), p.Pos(st.Pos()), "the "+core.FieldName(fa.X.Type(), fa.Field)+" of a reported position is computed here instead of being copied from a tokenizer span: the parser cannot know how many lines, tabs or multi-byte characters lie between the characters it counts")
+			}
+		}
+	}
+	if bad == 0 {
+		r.OK("location-copied", "parser", "-", sprintf("%d stores into Location fields, all constants or copies", n))
+	}
 }
